@@ -30,7 +30,8 @@ ATTS3 = [[0, 0, 0, 0, 0, 0, 0, 0], [2, 0, 1, 0, 0, 0, 0, 0], [0, 5, 0, 0, 0, 2, 
 EXHAUSTIVE = {"quick": True, "thorough": True}
 RULE = ("EXHAUSTIVE part: every string over {a, U+FF25 (width 2), U+0300 (width 0)} of length <= 5 (quick) / <= 6 "
         "(thorough) x every layout with 0, 1 or 2 cuts into runs of different formatting (empty runs included, plus the "
-        "FmtStr without runs) x columns 2, 3, 4; one case = one FmtStr with the three column values. RANDOM part: longer "
+        "FmtStr without runs) x columns 2, 3, 4; the same run 2 or 3 times in a row, as one shared Chunk object (what f * n "
+        "and x + x build) and as equal distinct objects; one case = one FmtStr with the three column values. RANDOM part: longer "
         "FmtStrs (up to 5 runs, random attributes, spaces, more wide/combining characters) with random columns 2..12 and "
         "the out-of-range values 1, 0, -1, and a malformed stream with control characters (ValueError). Widths are read "
         "from cwcwidth at run time and handed to Coq with the case. Observation: list(f.width_aware_splitlines(n)) as "
@@ -69,6 +70,16 @@ def generate(rng, tier):
             s = "".join(tup)
             for runs in layouts(s):
                 yield {"runs": runs, "columns": [2, 3, 4]}
+    # the same run several times in a row, as ONE Chunk object (what f * n and x + x build) and as equal but
+    # distinct objects
+    for n in range(1, 4):
+        for tup in itertools.product(ALPHA, repeat=n):
+            s = "".join(tup)
+            for k in (2, 3):
+                for share in (True, False):
+                    yield {"runs": [[s, ATTS3[1]]] * k, "columns": [2, 3, 4], "share": share}
+                    yield {"runs": [["a", ATTS3[0]]] + [[s, ATTS3[1]]] * k + [[WIDE, ATTS3[2]]], "columns": [2, 3, 5],
+                           "share": share}
     nrand = 8000 if tier == "thorough" else 400
     alpha_ok = "ab " + WIDE * 3 + COMB * 2 + "中́x"
     for k in range(nrand):
@@ -110,7 +121,7 @@ def _guarded(thunk):
 
 
 def run(inp):
-    f = canon.build_fs(inp["runs"])
+    f = canon.build_fs(inp["runs"], inp.get("share"))
     return [canon.outcome(lambda: _guarded(lambda: list(f.width_aware_splitlines(n))),
                           lambda ls: [canon.canon_fs(x) for x in ls])
             for n in inp["columns"]]
@@ -140,7 +151,7 @@ def from_json(obj):
 
 
 def key(inp):
-    return repr((inp["runs"], inp["columns"]))
+    return repr((inp["runs"], inp["columns"], inp.get("share")))
 
 
 def _padded(inp, o):
